@@ -494,29 +494,37 @@ class RemoteWorker(Worker, metaclass=RemoteWorkerMeta):
             self._remote_side = True
             self._is_backend = False
 
-            logger.debug('Client data socket is: {}', self._socket.getpeername())
-            logger.debug('Creating a control socket for this connection...')
-            self._ctrl_sock = socket.socket(socket.AF_INET, socket.SOCK_STREAM)
-            self._ctrl_sock.bind((self._socket.getsockname()[0], 0))
-            self._ctrl_sock.listen()
-            logger.debug('Control socket listening at {}', self._ctrl_sock.getsockname())
+            incoming = None
+            try:
+                logger.debug('Client data socket is: {}', self._socket.getpeername())
+                logger.debug('Creating a control socket for this connection...')
+                self._ctrl_sock = socket.socket(socket.AF_INET, socket.SOCK_STREAM)
+                self._ctrl_sock.bind((self._socket.getsockname()[0], 0))
+                self._ctrl_sock.listen()
+                logger.debug('Control socket listening at {}', self._ctrl_sock.getsockname())
 
-            logger.debug('Notifying the parent about newly created control socket...')
-            send_msg(self._socket, self._ctrl_sock.getsockname(), comment='control socket addr')
+                logger.debug('Notifying the parent about newly created control socket...')
+                send_msg(self._socket, self._ctrl_sock.getsockname(), comment='control socket addr')
 
-            incoming = self._ctrl_sock
-            logger.debug('Waiting for a connect to the control socket from the parent')
-            ready = mp.connection.wait([incoming, self._socket])
-            if incoming not in ready:
-                # nothing is expected on the data connection at this point: if it became readable before
-                # the parent connected to the control socket, the parent is gone
+                incoming = self._ctrl_sock
+                logger.debug('Waiting for a connect to the control socket from the parent')
+                ready = mp.connection.wait([incoming, self._socket])
+                if incoming not in ready:
+                    # nothing is expected on the data connection at this point: if it became readable before
+                    # the parent connected to the control socket, the parent is gone
+                    incoming.close()
+                    raise ConnectionClosedError()
+                self._ctrl_sock, ctrl_peer = incoming.accept()
+                set_keepalive(self._ctrl_sock, True)
+                logger.details('Control sockets connected: {} <==> {}', self._ctrl_sock.getsockname(), ctrl_peer)
+                logger.debug('Closing listening socket')
                 incoming.close()
-                raise ConnectionClosedError()
-            self._ctrl_sock, ctrl_peer = incoming.accept()
-            set_keepalive(self._ctrl_sock, True)
-            logger.details('Control sockets connected: {} <==> {}', self._ctrl_sock.getsockname(), ctrl_peer)
-            logger.debug('Closing listening socket')
-            incoming.close()
+            except OSError as e:
+                # the connection of the client is gone (e.g. it has been reset right after the request was sent) - this is
+                # the client's failure, not an error of the server
+                if incoming is not None:
+                    incoming.close()
+                raise ConnectionClosedError() from e
 
             logger.debug('Spinning up a backend child process...')
             self._comms = Pipe()
